@@ -278,7 +278,9 @@ def run_harness(cfg, seed, tier, log):
     log.append(("harness run", rc, out[-4000:]))
     rp = os.path.join(GEN, cfg["id"] + ".harness.json")
     if rc != 0 or not os.path.exists(rp):
-        return None, "harness failed (exit %d): %s" % (rc, out[-1500:])
+        # a crash dumps every goroutine: the line that says what happened is far above the tail
+        first = re.search(r"^(panic: .*|fatal error: .*)$", out, re.M)
+        return None, "harness failed (exit %d): %s%s" % (rc, (first.group(1)[:300] + " ... ") if first else "", out[-1500:])
     with open(rp) as f:
         return json.load(f), None
 
